@@ -573,6 +573,11 @@ impl Engine for C09 {
         run_case(case, self.namespace())
     }
 
+    fn isolate_every(&self, _unit: &UnitSpec) -> Option<u64> {
+        // process-wide or per-thread state left behind by earlier decodes must not change a result
+        Some(512)
+    }
+
     fn rule(&self) -> String {
         "parse half: (base filter x single fault) enumerated [every prefix, byte delete/duplicate, every bit flip kept when still UTF-8 (all of them for the C entry point), operator-with-operand-cut, '(' / ')' inserted at every offset] over Filter::try_from and haystack_filter_parse + seeded multi-mutation/raw strings + parenthesis ladder 1..10^5 in isolated child processes; eval half: seeded (filter over a small tag/ref universe) x (record store of <=8 records with ref chains, cycles, self loops, dangling refs) x (store mutations injected between resolver callbacks), evaluated on every record against the real defs namespace; a case is non-trivial when the text was mutated/truncated (parse) or at least one resolver callback happened (eval); distinct = distinct (entry point, text, store seed, mutation rate)".into()
     }
